@@ -30,6 +30,8 @@ type vfInner struct {
 	findInfo  peer.AddrInfo
 	findErr   error
 	provs     []peer.AddrInfo
+	search    [][]byte // values the inner SearchValue streams, in order
+	searchErr error
 }
 
 var vfInners = map[*dht.IpfsDHT]*vfInner{}
@@ -75,6 +77,26 @@ func vfModelFindProvidersAsync(d *dht.IpfsDHT, ctx context.Context, c cid.Cid, c
 	return ch
 }
 
+func vfModelSearchValue(d *dht.IpfsDHT, ctx context.Context, key string, opts ...routing.Option) (<-chan []byte, error) {
+	in := vfInners[d]
+	if in.searchErr != nil {
+		return nil, in.searchErr
+	}
+	ch := make(chan []byte)
+	go func() {
+		defer close(ch)
+		for _, v := range in.search {
+			select {
+			case ch <- v:
+			case <-ctx.Done():
+				return
+			}
+		}
+	}()
+	return ch, nil
+}
+
+//verif:intercept * (*github.com/libp2p/go-libp2p-kad-dht.IpfsDHT).SearchValue = vfModelSearchValue
 //verif:intercept * (*github.com/libp2p/go-libp2p-kad-dht.IpfsDHT).RoutingTable = vfModelRoutingTable
 //verif:intercept * (*github.com/libp2p/go-libp2p-kad-dht.IpfsDHT).Provide = vfModelProvide
 //verif:intercept * (*github.com/libp2p/go-libp2p-kad-dht.IpfsDHT).PutValue = vfModelPutValue
@@ -210,7 +232,103 @@ func VfDualRouting() {
 	vfReach("dual/end")
 }
 
+// vfRankVal: value = one rank byte; higher is better; 0xff is invalid.
+type vfRankVal struct{}
+
+func (vfRankVal) Validate(key string, v []byte) error {
+	if len(v) != 1 || v[0] == 0xff {
+		return errors.New("invalid")
+	}
+	return nil
+}
+func (vfRankVal) Select(key string, vals [][]byte) (int, error) {
+	if len(vals) == 0 {
+		return 0, errors.New("no values")
+	}
+	best := 0
+	for i, v := range vals {
+		if len(v) == 1 && len(vals[best]) == 1 && v[0] > vals[best][0] {
+			best = i
+		}
+	}
+	return best, nil
+}
+
+// VfDualSearchValue (C04, C15): the dual client's SearchValue merges the two
+// inner streams under the WAN validator: strictly improving, only values an
+// inner DHT yielded, final value = the best of everything either yielded.
+func VfDualSearchValue() {
+	wan, lan := &dht.IpfsDHT{Validator: vfRankVal{}}, &dht.IpfsDHT{Validator: vfRankVal{}}
+	w, l := &vfInner{}, &vfInner{}
+	vfInners[wan], vfInners[lan] = w, l
+	d := &DHT{WAN: wan, LAN: lan}
+	ctx := context.Background()
+	L := vfParam("L")
+	best := -1
+	all := map[byte]bool{}
+	for _, in := range []*vfInner{w, l} {
+		if vfBool("inner.searchFails") {
+			in.searchErr = errors.New("search failed")
+			continue
+		}
+		n := vfChoose("inner.values", L+1)
+		prev := -1
+		for i := 0; i < n; i++ {
+			// an inner DHT streams strictly improving valid values (C04 on the inner client)
+			r := vfChoose("inner.rank", 4)
+			if r <= prev {
+				continue
+			}
+			prev = r
+			in.search = append(in.search, []byte{byte(r)})
+			all[byte(r)] = true
+			if r > best {
+				best = r
+			}
+		}
+	}
+	ch, err := d.SearchValue(ctx, "/vf/key")
+	var got [][]byte
+	if err == nil {
+		for v := range ch {
+			got = append(got, v)
+		}
+	}
+	if w.searchErr != nil && l.searchErr != nil {
+		vfAssert(err != nil || len(got) == 0, "dual/search-fails-or-is-empty-when-both-inner-searches-fail")
+	} else {
+		vfAssert(err == nil, "dual/search-succeeds-when-one-inner-search-does")
+	}
+	for i, v := range got {
+		vfAssert(len(v) == 1 && all[v[0]], "dual/search-yields-only-values-an-inner-dht-yielded")
+		if i > 0 {
+			vfAssert(v[0] > got[i-1][0], "dual/search-values-strictly-improve")
+		}
+	}
+	if best >= 0 {
+		// the merged search ends when one inner search that yielded something ends
+		// (routing-helpers' Parallel router): the final value is at least the best
+		// of one inner DHT that yielded anything
+		floor := -1
+		for _, in := range []*vfInner{w, l} {
+			if n := len(in.search); n > 0 {
+				b := int(in.search[n-1][0])
+				if floor < 0 || b < floor {
+					floor = b
+				}
+			}
+		}
+		vfAssert(len(got) > 0 && int(got[len(got)-1][0]) >= floor, "dual/search-final-value-is-at-least-the-best-of-one-inner-dht")
+	} else {
+		vfAssert(len(got) == 0, "dual/search-nothing-when-nothing-was-found")
+	}
+	vfWaitIdle()
+	vfAssert(vfLiveGoroutines() == 1, "dual/search-no-goroutine-left")
+	vfReach("dual/search-end")
+}
+
 var _ = vfRegister("VfDualRouting", VfDualRouting)
+var _ = vfRegister("VfDualSearchValue", VfDualSearchValue)
 
 // ---- option layering of dual.New (C15-H2/H3) ----
 
